@@ -47,7 +47,7 @@ func c05Settle() {
 	for i := 0; i < 50; i++ {
 		runtime.Gosched()
 	}
-	time.Sleep(20 * time.Millisecond)
+	time.Sleep(300 * time.Millisecond) // native only: lets the real deletion goroutines finish also on a loaded machine
 }
 
 //verif:harness prop=C03,C05 tier=quick,thorough reach=checked paths=200000
